@@ -91,6 +91,11 @@ func genY(ch *vs.Choices, tier string) *yProg {
 			if p.Dedup != "" && i == 0 {
 				fmt.Fprintf(&sb, "    run: %s\n", p.Dedup)
 			}
+			if ch.Bool(1, 4) {
+				// ignore_error forgives failing commands, not the error that cuts a cycle off
+				sb.WriteString("    ignore_error: true\n")
+				p.EdgeKinds[i] += "+ign"
+			}
 			via := []string{"dep", "cmd", "dep", "cmd", "defer"}[ch.Draw(5)]
 			p.EdgeKinds[i] += "/" + via
 			if via == "defer" {
